@@ -242,6 +242,11 @@ def cmp_c19(case, got):
     k = case["kind"]
     if got.get("error"):
         return [("%s %s: %s" % (k, got.get("text", ""), got["error"]), "error:" + k)]
+    if k == "map":
+        want = [list(case["expect"])]
+        if got.get("maps") != want:
+            return [("--map-signal %s parses to %s, expected %s (from, to; -1 = discard)" % (got.get("text"), got.get("maps"), want), "map")]
+        return []
     if k == "status":
         e = case["expect"]
         if got["d"] != e["d"] or got["v"] != e["v"]:
